@@ -274,6 +274,18 @@ func caseClash(ns *models.Namespace, i int) bool {
 	return false
 }
 
+// clashOnName reports whether db has two rules whose tables both equal name
+// when lower-cased but are spelled differently.
+func clashOnName(ns *models.Namespace, db, name string) bool {
+	spellings := map[string]bool{}
+	for _, o := range ns.ShardRules {
+		if o.DB == db && strings.ToLower(o.Table) == strings.ToLower(name) {
+			spellings[o.Table] = true
+		}
+	}
+	return len(spellings) >= 2
+}
+
 func anyCaseClash(ns *models.Namespace) bool {
 	for i := range ns.ShardRules {
 		if caseClash(ns, i) {
@@ -301,7 +313,8 @@ func classify(ns *models.Namespace, f failure) string {
 		return "C10-F1"
 	case load && strings.Contains(f.detail, "duplicate") && strings.Contains(f.detail, "rule in") && anyCaseClash(ns):
 		return "C10-F3"
-	case (f.kind == "rule_replaced" || f.kind == "rule_missing" || f.kind == "linked") && f.rule >= 0 && caseClash(ns, f.rule):
+	case (f.kind == "rule_replaced" || f.kind == "rule_missing" || f.kind == "linked") && f.rule >= 0 &&
+		(caseClash(ns, f.rule) || f.kind == "linked" && clashOnName(ns, ns.ShardRules[f.rule].DB, ns.ShardRules[f.rule].ParentTable)):
 		return "C10-F3"
 	case f.kind == "load_namespace" && paddedSliceName(ns) && (strings.Contains(f.detail, "not in the slice list") ||
 		strings.Contains(f.detail, "not in the namespace.slices list") || strings.Contains(f.detail, "duplicate slice [")):
@@ -322,12 +335,13 @@ func classify(ns *models.Namespace, f failure) string {
 	}
 	r := ns.ShardRules[f.rule]
 	switch f.kind {
-	case "dup_index", "find_unlisted":
+	case "dup_index", "find_unlisted", "db_per_index":
 		if hasNegative(r.Locations) {
 			return "C10-F2"
 		}
 	case "empty_tables":
-		if r.Type != models.ShardYear && r.Type != models.ShardMonth && r.Type != models.ShardDay && sumInts(r.Locations) <= 0 {
+		isDate := r.Type == models.ShardYear || r.Type == models.ShardMonth || r.Type == models.ShardDay
+		if !isDate && sumInts(r.Locations) <= 0 || isDate && len(r.DateRange) == 0 {
 			return "C10-F2"
 		}
 	case "find_runtime_panic":
